@@ -5,8 +5,10 @@ EXTENDS MC_Core, Json
 CONSTANT MaxLen
 VARIABLE hist
 SInit == Init /\ hist = <<[act |-> act, last |-> last, heap |-> heap]>>
+\* (TLC -simulate picks uniformly among successor states, and most successors are failing lookups: keep one in five)
 SNext == /\ Len(hist) <= MaxLen
          /\ Next
+         /\ (last' = "raise" => RandomElement(1..5) = 1)
          /\ hist' = Append(hist, [act |-> act', last |-> last', heap |-> heap'])
 SSpec == SInit /\ [][SNext]_<<vars, hist>>
 EmitHist == (Len(hist) = MaxLen + 1) => PrintT("@@" \o ToJson([hist |-> hist]))
